@@ -12,15 +12,65 @@ def oracle(chain_views, parent_utxo, bv, now, env):
     return spec.c05_conjuncts(chain_views, bv, now, env.period, env.span, env.scrypt)
 
 
+def node_level(ck, tier):
+    """the same rules on the paths that feed full validation: a relayed block is judged against the NODE's clock (not
+    against anything the sender writes into the message), and what the node's own miner assembles satisfies them"""
+    import chaingen
+    import nodeharness
+    import simnet
+    from skepticoin.networking import messages as M
+    rng = ck.rng
+    keys = chaingen.Keys()
+    with chaingen.Env(period=50) as env:
+        tg = chaingen.TreeGen(env, keys, rng)
+        n = tg.genesis
+        for _ in range(3):
+            n = tg.extend(n, txs=[], fees=0, dt=60)
+        main = list(tg.nodes)
+        with simnet.Net(seed=rng.getrandbits(30), t0=n.view.time + 500) as net:
+            sn = nodeharness.SingleNode(net, chaingen.impl_state_from(main), [m.block for m in main[1:]], npeers=2)
+            sn.new_messages()
+            mid = 1000
+            for ahead, forged in ((3600, True), (31, True), (3600, False), (31, False), (30, True), (5, False)):
+                head = [x for x in tg.nodes if x.id == bytes(sn.lp().chain_manager.coinstate.current_chain_hash)][0]
+                ts = net.clock() + ahead
+                nb = tg.extend(head, txs=[], fees=0, dt=ts - head.view.time)
+                mid += 1
+                raw = M.MessageHeader(ts if forged else net.clock(), mid, 0, 7).serialize() + \
+                    M.DataMessage(M.DATA_BLOCK, nb.block).serialize()
+                sn.deliver(rng.randrange(2), None, raw=raw)
+                got = nb.id in sn.observe()['blocks']
+                ck.case(('relayed-future', ahead, forged), kind='relayed/%+ds/%s' % (ahead, 'accepted' if got else 'refused'))
+                if got != (ahead <= 30):
+                    ck.violation('relayed-block-clock', 'a relayed block stamped %d s ahead of the node\'s clock (message header '
+                                 'timestamp %s) is %s' % (ahead, 'forged to match the block' if forged else 'honest',
+                                                          'accepted' if got else 'refused'),
+                                 {'node_level': True, 'ahead': ahead, 'header_forged': forged, 'block': nb.block.serialize().hex()})
+                if not got:
+                    tg.nodes.remove(nb)
+                else:
+                    net.clock.t = ts + 1
+    import check_C12
+    for trial in range(2 if tier == 'quick' else 6):
+        try:
+            check_C12.scenario(ck, 100 + trial, tier, [], [], clock_offsets=(0, 1, 30, 4000))
+        except Exception:
+            import traceback
+            tb = traceback.format_exc()
+            if 'could not mine a block' not in tb:
+                ck.disagree('miner scenario crashed: %s' % tb[-400:], {})
+
+
 def run(tier, seed):
     ck = common.Check('C05', tier, seed)
     ck.rule = ('random block trees (7-20 blocks, forks, retarget period 3-6, 0-3 signed transactions per block), every '
                'generated block fully validated in a random parent-first arrival order; on up to 4 parents per tree '
-               '(head, boundary, fork tip, random) every spend-rule mutant (missing / already spent / other-fork output, '
-               'reference twice in a transaction / across transactions, output of the same block, own reward, foreign key, '
-               'outputs / value split / reference changed after signing, swapped signatures, placeholder and reward data '
-               'as signature, null reference, duplicate transaction) re-assembled with valid merkle root, evidence and '
-               'proof of work; verdict of CoinState.add_block compared with the extracted model and with the property '
+               '(head, boundary, fork tip, random) every header-rule mutant (id above target, target +-1 / not adjusted / from the '
+               'other branch / interval off by one, height +-1, reward height, time equal / before parent / 31 s ahead, '
+               'evidence fields altered / sampled from a sibling branch / for another height, a checkpoint horizon inside '
+               'the chain and blocks merely declaring a height below it); node level: relayed blocks stamped 5 s .. 1 h ahead '
+               'with honest and forged message-header timestamps, and the real miner handlers (every candidate handed out); '
+               'verdict of CoinState.add_block compared with the extracted model and with the property '
                'oracle; receiver state digested before and after; non-trivial = distinct (mutant kind, block id)')
     ck.trusted += ['extraction + OCaml driver', 'chain generator and independent block assembler (harness/spec.py)',
                    'test parameters patched from outside: checkpoint horizon -1, retarget period 3-6, sha256 stand-in '
@@ -30,6 +80,11 @@ def run(tier, seed):
                        'the functional model cannot mutate its argument']
     ck.build(extract=True)
     consensus_check.run_consensus(ck, TAGS, oracle, tier)
+    try:
+        node_level(ck, tier)
+    except Exception:
+        import traceback
+        ck.disagree('node-level scenario crashed: %s' % traceback.format_exc()[-500:], {})
     return ck.finish()
 
 
